@@ -18,7 +18,7 @@ PROPERTIES = ["C07"]
 CLAUSE_PROPS = {"ctx-attrs": "C03", "ctx-function": "C03", "rowcount": "C04", "status-row": "C04"}
 
 SPEC = {
-    "runs": {"quick": 400, "thorough": 50000},
+    "runs": {"quick": 400, "thorough": 15000},
     "wall": {"quick": 600, "thorough": 7200},
     "chunk": 10,
     "level": "exploration",
